@@ -563,43 +563,46 @@ Fixpoint group_add (k : string) (sub : list string) (g : list (string * list (li
   end.
 
 (* _select( *keys, inplace=True, strict) (_td.py:3279) *)
+(* pass 1: the source dict in the order of the arguments; a missing key raises when strict (None) *)
+Fixpoint sel_pass1 (es : ents) (strict : bool) (keys : list (list string)) (src : ents) (g : list (string * list (list string)))
+  : option (ents * list (string * list (list string))) :=
+  match keys with
+  | [] => Some (src, g)
+  | [] :: r => None
+  | (k :: sub) :: r =>
+      match aget k es with
+      | None => if strict then None else sel_pass1 es strict r src g
+      | Some v => sel_pass1 es strict r (aset k v src) (match sub with [] => g | _ => group_add k sub g end)
+      end
+  end.
+
+(* pass 2: nested selections, in place on the nested nodes (their effect stays when a later one raises) *)
+Fixpoint sel_pass2 (rec : list (list string) -> tree -> tree * outcome) (g : list (string * list (list string))) (src es : ents)
+  : ents * ents * outcome :=
+  match g with
+  | [] => (src, es, Done)
+  | (k, subs) :: r =>
+      match aget k src with
+      | Some (Node KTd cb cd cn ce) =>
+          let '(c', o) := rec subs (Node KTd cb cd cn ce) in
+          let src1 := aset k c' src in
+          let es1 := aset k c' es in
+          match o with Done => sel_pass2 rec r src1 es1 | _ => (src1, es1, o) end
+      | Some (Node KNt _ _ _ _) => (src, es, Unmodelled)
+      | _ => (src, es, Raised)
+      end
+  end.
+
 Fixpoint select_in (fuel : nat) (keys : list (list string)) (strict : bool) (self : tree) : tree * outcome :=
   match fuel with
   | O => (self, Unmodelled)
   | S fuel' =>
       match self with
       | Node KTd bs dv nm es =>
-          (* pass 1: source dict in the order of the arguments; a missing key raises when strict *)
-          let pass1 :=
-            (fix go (keys : list (list string)) (src : ents) (g : list (string * list (list string))) : option (ents * list (string * list (list string))) :=
-               match keys with
-               | [] => Some (src, g)
-               | [] :: r => None
-               | (k :: sub) :: r =>
-                   match aget k es with
-                   | None => if strict then None else go r src g
-                   | Some v => go r (aset k v src) (match sub with [] => g | _ => group_add k sub g end)
-                   end
-               end) keys [] [] in
-          match pass1 with
+          match sel_pass1 es strict keys [] [] with
           | None => (self, Raised)
           | Some (src, g) =>
-              (* pass 2: nested selections, in place on the nested nodes (their effect stays when a later one raises) *)
-              let '(src', es', o) :=
-                (fix go2 (g : list (string * list (list string))) (src es : ents) : ents * ents * outcome :=
-                   match g with
-                   | [] => (src, es, Done)
-                   | (k, subs) :: r =>
-                       match aget k src with
-                       | Some (Node KTd cb cd cn ce) =>
-                           let '(c', o) := select_in fuel' subs strict (Node KTd cb cd cn ce) in
-                           let src1 := aset k c' src in
-                           let es1 := aset k c' es in
-                           match o with Done => go2 r src1 es1 | _ => (src1, es1, o) end
-                       | Some (Node KNt _ _ _ _) => (src, es, Unmodelled)
-                       | _ => (src, es, Raised)
-                       end
-                   end) g src es in
+              let '(src', es', o) := sel_pass2 (fun subs c => select_in fuel' subs strict c) g src es in
               match o with
               | Done => (Node KTd bs dv nm src', Done)
               | _ => (Node KTd bs dv nm es', o)
@@ -616,6 +619,30 @@ Fixpoint depth (t : tree) : nat :=
   end.
 
 (* _exclude( *keys, inplace=True) (_td.py:3331) *)
+Fixpoint exc_pass1 (keys : list (list string)) (es : ents) (g : list (string * list (list string)))
+  : ents * list (string * list (list string)) :=
+  match keys with
+  | [] => (es, g)
+  | [] :: r => exc_pass1 r es g
+  | [k] :: r => exc_pass1 r (adel k es) g
+  | (k :: sub) :: r => exc_pass1 r es (if amem k es then group_add k sub g else g)
+  end.
+
+Fixpoint exc_pass2 (rec : list (list string) -> tree -> tree * outcome) (g : list (string * list (list string))) (es : ents)
+  : ents * outcome :=
+  match g with
+  | [] => (es, Done)
+  | (k, subs) :: r =>
+      match aget k es with
+      | None => exc_pass2 rec r es
+      | Some (Node KTd cb cd cn ce) =>
+          let '(c', o) := rec subs (Node KTd cb cd cn ce) in
+          match o with Done => exc_pass2 rec r (aset k c' es) | _ => (aset k c' es, o) end
+      | Some (Node KNt _ _ _ _) => (es, Unmodelled)
+      | Some (Leaf _ _) => (es, Raised)
+      end
+  end.
+
 Fixpoint exclude_in (fuel : nat) (keys : list (list string)) (self : tree) : tree * outcome :=
   match fuel with
   | O => (self, Unmodelled)
@@ -625,28 +652,8 @@ Fixpoint exclude_in (fuel : nat) (keys : list (list string)) (self : tree) : tre
           match keys with
           | [] => (self, Done)
           | _ =>
-              let '(es1, g) :=
-                (fix go (keys : list (list string)) (es : ents) (g : list (string * list (list string))) : ents * list (string * list (list string)) :=
-                   match keys with
-                   | [] => (es, g)
-                   | [] :: r => go r es g
-                   | [k] :: r => go r (adel k es) g
-                   | (k :: sub) :: r => go r es (if amem k es then group_add k sub g else g)
-                   end) keys es [] in
-              let '(es2, o) :=
-                (fix go2 (g : list (string * list (list string))) (es : ents) : ents * outcome :=
-                   match g with
-                   | [] => (es, Done)
-                   | (k, subs) :: r =>
-                       match aget k es with
-                       | None => go2 r es
-                       | Some (Node KTd cb cd cn ce) =>
-                           let '(c', o) := exclude_in fuel' subs (Node KTd cb cd cn ce) in
-                           match o with Done => go2 r (aset k c' es) | _ => (aset k c' es, o) end
-                       | Some (Node KNt _ _ _ _) => (es, Unmodelled)
-                       | Some (Leaf _ _) => (es, Raised)
-                       end
-                   end) g es1 in
+              let '(es1, g) := exc_pass1 keys es [] in
+              let '(es2, o) := exc_pass2 (fun subs c => exclude_in fuel' subs c) g es1 in
               (Node KTd bs dv nm es2, o)
           end
       | _ => (self, Unmodelled)
